@@ -17,6 +17,7 @@ NOT_DECIDED = "that destructors of user tasks run (tokio's contract for dropping
 DECIDED += "; R7 exhaustive scans: Sim::crash, Sim::run_with_hosts and IoUringHostState::crash visit every element"
 DECIDED += "; R8 peers are told: an abandoned, already answered connect resets the peer's stream; a RST wakes a writer parked on flow control (recorded finding D32)"
 DECIDED += '; R2 also: the FIN is remembered as EOF on both read paths (read and peek; shared C02-R3)'
+DECIDED += "; R2 also: Rt::crash cancels the host's tasks on every path, whether or not the main future is still running; R9 crash / bounce drop the tasks with the host's filesystem entered (recorded finding D56); Fs::crash also drops the page cache (shared C07-R2)"
 ASSUMPTIONS = ["dropping a tokio Runtime and LocalSet drops every task they own"]
 
 
